@@ -26,6 +26,9 @@ def catalogue(rnd, n_random):
     for g in (1.001, 1.01, 0.999):
         for x0 in (1.0, -1.0):
             out.append(('growth g=%s x0=%s' % (g, x0), 'x = %s*LAGX\nLAGX = x(k-1)\n' % g, {'x': x0}))
+    for a in (1e-3, -1e-3):
+        for x0 in (1000.0, -1000.0, 10.0):
+            out.append(('fast decay through the near-zero band a=%s x0=%s' % (a, x0), 'x = %s*LAGX\nLAGX = x(k-1)\n' % a, {'x': x0}))
     for x0 in (1.0, -3.0):
         out.append(('oscillate x0=%s' % x0, 'x = -1.0*LAGX\nLAGX = x(k-1)\n', {'x': x0}))
     out.append(('exo', 'x = 0.5*LAGX + g\nLAGX = x(k-1)\nexogenous\ng = [20.]*5 + [30.]*300\n', {'x': 0.0}))
@@ -40,12 +43,18 @@ def catalogue(rnd, n_random):
     return out
 
 
-def run_case(name, eqs, ics, T, tol):
+def run_case(name, eqs, ics, T, tol, presolved=False):
     """returns (accepted: bool, problem or None)"""
     txt = eqs + ''.join('%s(0) = %r\n' % kv for kv in ics.items()) + 'MaxTime = 3\n'
     s = EquationSolver(txt)
     s.ExtractVariableList()
     s.SetInitialConditions()
+    if presolved:          # the search applied to a solver that already holds solved periods
+        try:
+            for step in range(1, 4):
+                s.SolveStep(step)
+        except ValueError:
+            return False, None
     s.ParameterInitialSteadyStateMaxTime = T
     s.ParameterInitialSteadyStateErrorToler = tol
     before_parser = copy.deepcopy((s.Parser.Endogenous, s.Parser.Lagged, s.Parser.Exogenous, s.Parser.Decoration, s.Parser.MaxTime, s.EquationString))
@@ -99,11 +108,12 @@ def search(tier, seed, **opts):
     for (name, eqs, ics) in cat:
         for T in (3, 50, 200):
             for tol in (1e-4, 1e-2):
-                acc, bad = run_case(name, eqs, ics, T, tol)
-                r.case((name, T, tol), acc, sample={'system': eqs, 'initial': ics, 'T': T, 'tol': tol, 'accepted': acc})
-                if bad:
-                    r.fail('steady-state', {'system': eqs, 'initial': ics, 'T': T, 'tol': tol}, bad)
-                    return r
+                for pre in (False,):   # a presolved solver violates SolveStep's own precondition (series length == step)
+                    acc, bad = run_case(name, eqs, ics, T, tol, pre)
+                    r.case((name, T, tol, pre), acc, sample={'system': eqs, 'initial': ics, 'T': T, 'tol': tol, 'presolved': pre, 'accepted': acc})
+                    if bad:
+                        r.fail('steady-state', {'system': eqs, 'initial': ics, 'T': T, 'tol': tol, 'presolved': pre}, bad)
+                        return r
     return r
 
 
@@ -113,7 +123,7 @@ FUNCS = {'search': search}
 def replay(payload):
     if payload.get('kind') == 'bounded-failure':
         inp = payload['native']['input']
-        acc, bad = run_case('replay', inp['system'], inp['initial'], inp['T'], inp['tol'])
+        acc, bad = run_case('replay', inp['system'], inp['initial'], inp['T'], inp['tol'], inp.get('presolved', False))
         return {'reproduced': bool(bad), 'detail': bad, 'input': inp}
     w = dict((k, parse_model_value(v)) for k, v in (payload.get('watch') or {}).items())
     # recipe for an accepted (prev, last) pair of the counter-model: x = LAGX + d, d = last - prev, x(0) = last - T*d
